@@ -91,7 +91,7 @@ class Outcome:
 def run_verus_unit(plan, u, out, tier):
     prop = plan["id"]
     tmpl = os.path.join(VERIF, "contracts", prop, u["template"])
-    bdir = os.path.join(VERIF, "build", prop)
+    bdir = os.path.join(VERIF, "build", prop if REPO == "/repo" else "scratch_" + prop)
     os.makedirs(bdir, exist_ok=True)
     unit = u["unit"]
     try:
